@@ -594,7 +594,7 @@ func c44orderCase(r *c44rng) c44line {
 	}
 	sort.Strings(tl)
 	return c44line{
-		Coq:    "(COrd [" + strings.Join(idsC, ";") + "] [" + strings.Join(rows, ";") + "])",
+		Coq:    "(KOrd [" + strings.Join(idsC, ";") + "] [" + strings.Join(rows, ";") + "])",
 		NT:     crossing,
 		Key:    "order " + strings.Join(idsT, " | "),
 		Sample: map[string]any{"ids": idsT, "wlIdsAscending(row,column)": mat},
@@ -602,9 +602,87 @@ func c44orderCase(r *c44rng) c44line {
 	}
 }
 
+// ---- calculateRoutes of one endpoint: networks, NAT external addresses, floating-IP switch, orchestrator,
+// live-migration state, route priorities
+func c44routesCase(r *c44rng) c44line {
+	mg := c44new()
+	fip := r.intn(2) == 0
+	orch := []string{"k8s", "openstack", "cni"}[r.intn(3)]
+	np := []int{0, 1024, 100}[r.intn(3)]
+	ep := []int{512, 1, 1023}[r.intn(3)]
+	mg.m.cfg.floatingIPsEnabled = fip
+	mg.m.cfg.normalRoutePriority = np
+	mg.m.cfg.elevatedRoutePriority = ep
+	id := types.WorkloadEndpointID{OrchestratorId: orch, WorkloadId: "w", EndpointId: "e"}
+	lmIdx := r.intn(4)
+	lmName := []string{"LmNone", "LmTarget", "LmLive", "LmTimeWait"}[lmIdx]
+	if r.intn(4) == 0 {
+		// a state recorded earlier and reset to base must leave no trace
+		mg.m.OnLiveMigrationStateUpdate(id, liveMigrationStateLive)
+		mg.m.OnLiveMigrationStateUpdate(id, liveMigrationStateBase)
+	}
+	switch lmIdx {
+	case 1:
+		mg.m.OnLiveMigrationStateUpdate(id, liveMigrationStateTarget)
+	case 2:
+		mg.m.OnLiveMigrationStateUpdate(id, liveMigrationStateLive)
+	case 3:
+		mg.m.OnLiveMigrationStateUpdate(id, liveMigrationStateTimeWait)
+	}
+	wl := &proto.WorkloadEndpoint{State: "active", Name: "cali0", Mac: "01:02:03:04:05:06"}
+	var nets, ext []string
+	used := map[int]bool{}
+	for k := r.intn(4); k > 0; k-- {
+		n := 1 + r.intn(600)
+		if used[n] {
+			continue
+		}
+		used[n] = true
+		wl.Ipv4Nets = append(wl.Ipv4Nets, fmt.Sprintf("10.0.%d.%d/32", n/256, n%256))
+		nets = append(nets, strconv.Itoa(n))
+	}
+	for k := r.intn(3); k > 0; k-- {
+		n := 1 + r.intn(600)
+		if used[65536+n] {
+			continue
+		}
+		used[65536+n] = true
+		wl.Ipv4Nat = append(wl.Ipv4Nat, &proto.NatInfo{ExtIp: fmt.Sprintf("10.1.%d.%d", n/256, n%256), IntIp: "10.0.0.1"})
+		ext = append(ext, strconv.Itoa(65536+n))
+	}
+	targets := mg.m.calculateRoutes(log.WithField("verif", "c44"), id, wl)
+	var rs, rsT []string
+	for _, t := range targets {
+		a := t.CIDR.Addr().AsNetIP().To4()
+		n := int(a[1])*65536 + int(a[2])*256 + int(a[3])
+		rs = append(rs, fmt.Sprintf("(%d,%d)", n, t.Priority))
+		rsT = append(rsT, fmt.Sprintf("%s prio %d", t.CIDR.String(), t.Priority))
+	}
+	tags := []string{"stream:routes", "routes:lm-" + strings.ToLower(lmName[2:]), "routes:orch-" + orch}
+	if fip {
+		tags = append(tags, "routes:floating-ips")
+	}
+	if len(ext) > 0 {
+		tags = append(tags, "routes:nat")
+	}
+	sort.Strings(tags)
+	return c44line{
+		Coq: fmt.Sprintf("(KRoutes %v %v %s %d %d [%s] [%s] [%s])", fip, orch == "openstack", lmName, np, ep,
+			strings.Join(nets, ";"), strings.Join(ext, ";"), strings.Join(rs, ";")),
+		NT:  len(ext) > 0 && len(nets) > 0,
+		Key: fmt.Sprintf("routes fip=%v orch=%s lm=%s np=%d ep=%d nets=%v nat=%v", fip, orch, lmName, np, ep, nets, ext),
+		Sample: map[string]any{"floatingIPs": fip, "orchestrator": orch, "liveMigration": lmName, "nets": wl.Ipv4Nets,
+			"natExt": ext, "routes": rsT},
+		Tags: tags,
+	}
+}
+
 func c44case(r *c44rng, idx int, fixed [][]c44op) c44line {
 	if fixed == nil && idx%10 == 9 {
 		return c44orderCase(r)
+	}
+	if fixed == nil && idx%10 == 4 {
+		return c44routesCase(r)
 	}
 	g := &c44gen{r: r, live: map[c44id]c44ep{}, tags: map[string]bool{}}
 	stream := "random"
@@ -714,7 +792,7 @@ func c44case(r *c44rng, idx int, fixed [][]c44op) c44line {
 	sort.Strings(tags)
 	_ = panicked
 	return c44line{
-		Coq:    "(CHist (mkCase [" + strings.Join(coqB, ";") + "]))",
+		Coq:    "(KHist (mkCase [" + strings.Join(coqB, ";") + "]))",
 		NT:     g.shared,
 		Key:    strings.Join(keyB, " | "),
 		Sample: map[string]any{"batches": sample},
